@@ -81,15 +81,18 @@ def run_ib(pid, tier, replay):
     alpha_q = [97, 12354, 134071]
     alpha_t = [97, 233, 12354, 134071]
     # ---- 1. model checking (no history variable, larger bounds)
-    b_mc = dict(maxchars=3, maxedits=2, maxbatches=2, alphabet=[97, 134071]) if tier == "quick" else \
-        dict(maxchars=3, maxedits=2, maxbatches=3, alphabet=alpha_t)
-    cfg = os.path.join(C.WORK, "tlc", f"MC_InputBuffer_{pid}_{tier}.cfg")
-    mc_cfg(cfg, genhist=False, **b_mc)
-    r = C.tlc_mc("MC_InputBuffer", cfg, workers=8, timeout=3000)
-    if r.violated:
-        out.violation(f"model invariant {r.violated} violated in MC_InputBuffer", {"tlc_tail": r.tail}, signature=f"{pid}/model/{r.violated}")
-    out.require_actions(r, ["MCStart", "MCCommit"])
-    out.add_mc("MC_InputBuffer", r, b_mc)
+    # thorough: two instances instead of their product (3 batches x 4 letters x 3 characters does not finish in an hour):
+    # all four byte widths with 2 batches, and 3 stacked batches over the 1- and 4-byte letters
+    runs = [dict(maxchars=3, maxedits=2, maxbatches=2, alphabet=[97, 134071])] if tier == "quick" else \
+        [dict(maxchars=3, maxedits=2, maxbatches=2, alphabet=alpha_t), dict(maxchars=2, maxedits=2, maxbatches=3, alphabet=[97, 134071])]
+    for k, b_mc in enumerate(runs):
+        cfg = os.path.join(C.WORK, "tlc", f"MC_InputBuffer_{pid}_{tier}_{k}.cfg")
+        mc_cfg(cfg, genhist=False, **b_mc)
+        r = C.tlc_mc("MC_InputBuffer", cfg, workers=8, timeout=3000)
+        if r.violated:
+            out.violation(f"model invariant {r.violated} violated in MC_InputBuffer", {"tlc_tail": r.tail}, signature=f"{pid}/model/{r.violated}")
+        out.require_actions(r, ["MCStart", "MCCommit"])
+        out.add_mc(f"MC_InputBuffer[{k}]", r, b_mc)
     # ---- 2. behaviours with history -> replay on the real InputBuffer / MorphemeList
     b_gen = dict(maxchars=2, maxedits=2, maxbatches=2, alphabet=alpha_q) if tier == "quick" else \
         dict(maxchars=3, maxedits=2, maxbatches=2, alphabet=alpha_q)
